@@ -420,6 +420,30 @@ class Evaluator:
             return
         if isinstance(s, ast.Pass):
             return
+        if isinstance(s, ast.Delete):
+            for t in s.targets:
+                if isinstance(t, ast.Subscript):
+                    base = self.ev(t.value)
+                    key = self.ev(t.slice)
+                    try:
+                        del base[key]
+                    except KeyError:
+                        raise Raised("KeyError", s)
+                    except IndexError:
+                        raise Raised("IndexError", s)
+                    except TypeError:
+                        raise Unknown("del on " + type(base).__name__)
+                elif isinstance(t, ast.Name):
+                    self.env.pop(t.id, None)
+                elif isinstance(t, ast.Attribute):
+                    base = self.ev(t.value)
+                    try:
+                        delattr(base, t.attr)
+                    except AttributeError:
+                        raise Raised("AttributeError", s)
+                else:
+                    raise Unknown("del target")
+            return
         if isinstance(s, (ast.FunctionDef,)):
             self.env[s.name] = _Closure(s)
             return
